@@ -1231,3 +1231,46 @@ silent("c12-silent-visit-form", ["C12"], CSF,
        "            # continue traversing\n            return True",
        "        if key not in self.subexpr_counts:\n            self.subexpr_counts[key] = 1\n"
        "            return True\n        self.subexpr_counts[key] += 1\n        return False")
+
+# ---------------------------------------------------------------------------
+# C15
+# ---------------------------------------------------------------------------
+COE = "pymbolic/mapper/coefficient.py"
+ALG = "pymbolic/algorithm.py"
+
+fire("c15-product-nonlinear-accepted", ["C15"], COE,
+     "                    if (idx_of_child_with_vars is not None\n"
+     "                            and idx_of_child_with_vars != i):\n"
+     "                        raise RuntimeError(\n"
+     "                                \"nonlinear expression\")\n", "",
+     "P/CoefficientCollector/map_product/nonlinear-raises")
+fire("c15-quotient-by-variable-accepted", ["C15"], COE,
+     "        # d_den should look like {1: k}\n"
+     "        if len(d_den) > 1 or 1 not in d_den:\n"
+     "            raise RuntimeError(\"nonlinear expression\")\n", "",
+     "P/CoefficientCollector/map_quotient/nonlinear-raises")
+fire("c15-power-base-unchecked", ["C15"], COE,
+     "        # d_base should look like {1: k}\n"
+     "        if len(d_base) > 1 or 1 not in d_base:\n"
+     "            raise RuntimeError(\"nonlinear expression\")\n", "",
+     "P/CoefficientCollector/map_power/nonlinear-raises")
+fire("c15-sum-overwrites", ["C15"], COE,
+     "                if var in result:\n                    result[var] += stride\n"
+     "                else:\n                    result[var] = stride",
+     "                result[var] = stride",
+     "K/CoefficientCollector/map_sum")
+fire("c15-new-handler-reads-missing-attr", ["C15"], COE,
+     "    def map_constant(self, expr):\n        return {1: expr}",
+     "    def map_constant(self, expr):\n        return {1: expr}\n\n"
+     "    def map_floor_div(self, expr):\n        return {1: expr.numerator // expr.denom}",
+     "X1/CoefficientCollector/map_floor_div")
+fire("c15-solver-divides-before-check", ["C15"], ALG,
+     "        if abs(mat[nonz_row, j]) != 1:\n            raise RuntimeError(\n"
+     "                    f\"division with remainder in linear solve for '{unknown}'\")\n"
+     "        div = mat[nonz_row, j]\n",
+     "        div = mat[nonz_row, j]\n",
+     "P/solve_affine/refusals-dominate-division")
+fire("c15-solver-nonunique-accepted", ["C15"], ALG,
+     "        if len(nonz_row) != 1:\n"
+     "            raise RuntimeError(f\"cannot uniquely solve for '{unknown}'\")\n\n", "",
+     "P/solve_affine/")
